@@ -104,7 +104,9 @@ func (n *node[T]) Methods() []string {
 }
 
 // 与 Methods 相同，但是不加锁，调用方需要保证已经持有锁。
-func (n *node[T]) methods() []string { return methodIndexes[n.methodIndex].methods }
+//
+// methodIndexes 是包级别的只读缓存，由所有的路由共享，所以返回的是副本，防止调用方修改后影响到其它路由。
+func (n *node[T]) methods() []string { return slices.Clone(methodIndexes[n.methodIndex].methods) }
 
 // 添加一个处理函数
 func (n *node[T]) addMethods(h T, pattern string, ms []types.Middleware[T], methods ...string) error {
